@@ -19,6 +19,7 @@
   twin-server run measures the parity command by command (see lib/c12.py for the deviations found).
 -/
 import FerrousSpec.Proofs.LuaRun
+import FerrousSpec.Proofs.LuaDepth
 import FerrousSpec.Gen.Lua
 namespace Ferrous.C12
 open Ferrous Ferrous.Lua
@@ -161,6 +162,49 @@ theorem conversion_fails_pcall_error :
 theorem conversion_fails_lossy_reply :
     Lua.respToLua onlyLossy (.bulk [255, 97]) = .str [239, 191, 189, 97] ∧ Spec.respToLua (.bulk [255, 97]) = .str [255, 97] :=
   ⟨rfl, rfl⟩
+
+/-! #### the depth limit of the return-value conversion -/
+
+/-- With the depth limit (`lua_value_to_resp(value, depth)`, limit = the parser's `MAX_NESTING`), for EVERY script, store and return
+    value: a value nested deeper than the limit has no reply form — the script's reply is the error `ERR reached lua stack limit` —
+    and nothing else changes: the script has run exactly as without the limit (same store); a value within the limit is converted
+    exactly as before.  (A table that contains itself is deeper than every limit.) -/
+theorem reply_nested_too_deep_is_error_and_changes_nothing_else
+    (q : Quirks) (kq : KS.Quirks) (limit : Nat) (s : KS.Store) (db now : Nat) (keys argv : List Bytes) (p : Program) :
+    (evalB q kq limit s db now keys argv p).1 = (eval q kq s db now keys argv p).1 ∧
+    (∀ v : LuaVal, limit < nest v → luaToRespD q limit v 0 = none) ∧
+    (∀ v : LuaVal, nest v ≤ limit → luaToRespD q limit v 0 = some (Lua.luaToResp q v)) ∧
+    (∀ rs v, runSteps q kq (mkEnv q keys argv) db now s [] p.steps = ((eval q kq s db now keys argv p).1, .ok rs) →
+        evalRet (mkEnv q keys argv) rs p.ret = some v → limit < nest v →
+        (evalB q kq limit s db now keys argv p).2 = stackLimitErr) := by
+  refine ⟨evalB_store q kq limit s db now keys argv p, fun v h => (luaToRespD_spec q limit v 0).2 (by omega),
+    fun v h => (luaToRespD_spec q limit v 0).1 (by omega), ?_⟩
+  intro rs v hrun hret hdeep
+  unfold evalB
+  rw [hrun]
+  simp only [hret, (luaToRespD_spec q limit v 0).2 (by omega), Option.getD]
+
+/-- What the limited conversion accepts (limit = one level below the parser's `MAX_NESTING`) is a frame the server's own parser
+    accepts, on its own and inside an EXEC reply: a converted value is no deeper than the parser's budget (`maxNesting + 1` frames on
+    a path), so, being well-formed, it is parsed back exactly (C20's round trip). -/
+theorem accepted_reply_parses (q : Quirks) (v : LuaVal) (h : nest v + 1 ≤ maxNesting) (hw : wf (Lua.luaToResp q v) = true) (rest : Bytes) :
+    luaToRespD q (maxNesting - 1) v 0 = some (Lua.luaToResp q v) ∧
+    parseBytes (ser (Lua.luaToResp q v) ++ rest) = .ok (Lua.luaToResp q v) rest ∧
+    -- … also as the element of an EXEC reply, one array further out
+    parseBytes (ser (.array [Lua.luaToResp q v]) ++ rest) = .ok (.array [Lua.luaToResp q v]) rest := by
+  have hd := depth_luaToResp_le q v
+  have hm : maxNesting = 128 := rfl
+  refine ⟨(luaToRespD_spec q (maxNesting - 1) v 0).1 (by omega), roundtrip_fuel _ hw (maxNesting + 1) (by omega) rest, ?_⟩
+  exact roundtrip_fuel _ (by simp [wf, wfList, hw]) (maxNesting + 1) (by simp [Frame.depth, depthList]; omega) rest
+
+/-- non-vacuity: `{{{1}}}` (three tables around the 1) is refused under limit 2, converted under limit 3 -/
+example : nest (.table [.table [.table [.int 1]]]) = 3 ∧ luaToRespD Quirks.code 2 (.table [.table [.table [.int 1]]]) 0 = none ∧
+    luaToRespD Quirks.code 3 (.table [.table [.table [.int 1]]]) 0 = some (.array [.array [.array [.int 1]]]) := ⟨rfl, rfl, rfl⟩
+
+/-- Tie to the code: the limit `lua_value_to_resp` stops at.  Either there is none (0: a script returning a table that contains
+    itself, or one nested a few thousand levels, overflows the stack of the only command thread — finding
+    C12-reply-depth-unbounded), or it is one level below the parser's `MAX_NESTING` (room for the array of an EXEC reply). -/
+theorem reply_depth_limit_is_the_parsers : Gen.luaReplyDepthLimit = 0 ∨ Gen.luaReplyDepthLimit + 1 = maxNesting := by decide
 
 /-! ### (2) KEYS and ARGV -/
 
